@@ -6,6 +6,9 @@ spec/CtxAlgebra.tla      one call per behaviour, one action per loop body of the
                          operational = reference; laws: glb, commutative/associative/idempotent,
                          difference = exactly the terminal items of d1 not in d2, reconstruction for
                          every level, update_recursively least upper merge, update_nested keeps old
+spec/CtxHeap.tla         the same functions on OBJECTS: environments with one sub-dictionary object in several
+                         places of the arguments, and small programs (histories) of calls on the caller's
+                         dictionaries; every step must change the values exactly as CtxValue says
 spec/Trace_CtxAlgebra.tla  validation of recorded calls (seeded random, repository test-suite)
 
 S2C: every call of the bounded model is exported with its expected outcome over *symbolic* leaf
@@ -191,6 +194,109 @@ def replay(ctx, fails, rec, val, rnd, fns):
                           detail(exception=repr(exc)))
 
 
+# ---------------------------------------------------------------- S2C: programs on object graphs (CtxHeap)
+HEAP_ACTIONS = ("DoInter", "DoDiff", "DoUpdRec", "DoUpdStr", "DoNested", "DoTouch")
+STEP_FN = {"inter": "intersection", "diff": "difference", "updrec": "update_recursively",
+           "updvar": "update_recursively", "updstr": "update_recursively(string)", "nested": "update_nested",
+           "touch": "intersection"}
+
+
+def run_step(fns, env, c, val, rnd):
+    """execute one call of a CtxHeap program on the caller's dictionaries env; returns the returned value"""
+    op, xs = c["op"], [i - 1 for i in c["xs"]]
+    if op == "inter":
+        res = fns.intersection(*[env[i] for i in xs], level=c["lv"]) if (c["lv"] != -1 or rnd.random() < 0.5) \
+            else fns.intersection(*[env[i] for i in xs])
+        env.append(res)
+        return res
+    if op == "diff":
+        return fns.difference(env[xs[0]], env[xs[1]], c["lv"])
+    if op == "updrec":
+        return fns.update_recursively(env[xs[0]], cl.decode(c["t"], val, rnd))
+    if op == "updvar":
+        return fns.update_recursively(env[xs[0]], env[xs[1]])
+    if op == "updstr":
+        if c["vk"] == "value":
+            return fns.update_recursively(env[xs[0]], ".".join(c["p"]), cl.decode(c["t"], val, rnd))
+        return fns.update_recursively(env[xs[0]], ".".join(c["p"]))
+    if op == "nested":
+        return fns.update_nested(c["key"], env[xs[0]], cl.decode(c["t"], val, rnd))
+    if op == "touch":
+        return cl.touch(env[xs[0]])
+    raise core.MachineryError("unknown step %r" % (op,))
+
+
+def replay_program(fails, rec, val, rnd, fns):
+    """Build the environment with the sharing the specification describes, run the program on the real
+    functions, and after every call compare the value of every dictionary the caller holds (and the returned
+    value) with what the specification says the caller sees."""
+    envd, prog, obs = rec["env"], rec["prog"], rec["obs"]
+    tag = "shared-objects" if cl.has_tokens(envd["roots"]) else "history"
+    sz = cl.size([cl_unfold(r, envd["sv"]) for r in envd["roots"]]) + 3 * len(prog)
+    env = cl.build_env(envd, val, rnd)
+    start = copy.deepcopy(env)
+
+    def detail(j, **kw):
+        d = {"environment": envd, "dictionaries_at_start": start, "program": prog, "failing_call": j + 1,
+             "valuation": cl.val_name(val)}
+        d.update(kw)
+        return d
+    # the harness builds what the specification means
+    for i, e in enumerate(env):
+        if cl.mismatches(cl.decode(cl_unfold(envd["roots"][i], envd["sv"]), val), e):
+            raise core.MachineryError("CtxHeap environment built wrongly: %r" % (envd,))
+    for j, c in enumerate(prog):
+        name = "%s[%s]" % (STEP_FN[c["op"]], tag)
+        xs = [i - 1 for i in c["xs"]]
+        try:
+            res = run_step(fns, env, c, val, rnd)
+        except Exception as exc:     # noqa
+            fails.add("%s:raised:%s" % (name, exc_name(exc)), sz, detail(j, exception=repr(exc)))
+            return
+        want = obs[j]
+        if len(env) != len(want["vals"]):
+            raise core.MachineryError("CtxHeap: harness and specification disagree on the variables")
+        if c["op"] in ("inter", "diff"):
+            exp = cl.decode(want["res"], val)
+            mm = [(("<not a dictionary>",), "differs-kind")] if not isinstance(res, dict) else cl.mismatches(exp, res)
+            if mm:
+                what = "result" if j == 0 or prog[j - 1]["op"] != "touch" else "result-after-earlier-result-was-changed"
+                fails.add("%s:%s:%s" % (name, what, mm[0][1]), sz,
+                          detail(j, expected=exp, observed=res, at=list(mm[0][0])))
+                return
+        for i, e in enumerate(env):
+            if cl.has_cycle(e):
+                fails.add("%s:dictionary-contains-itself" % name, sz, detail(j, variable=i + 1))
+                return
+            exp = cl.decode(want["vals"][i], val)
+            mm = cl.mismatches(exp, e)
+            if not mm:
+                continue
+            if c["op"] == "touch":
+                # writing into the result reached something else: the result was not a deep copy
+                what = "not-a-deep-copy" if i != xs[0] else "result-shares-a-dictionary-with-itself-wrongly"
+            elif c["op"] == "inter" and i == len(env) - 1:
+                what = "result:%s" % mm[0][1]
+            elif i == xs[0] and c["op"] in ("updrec", "updvar", "updstr", "nested"):
+                what = "d-after:%s" % mm[0][1]
+            elif i in xs:
+                what = "argument-changed"
+            else:
+                what = "another-dictionary-changed"
+            fails.add("%s:%s" % (name, what), sz,
+                      detail(j, variable=i + 1, expected=exp, observed=e, at=list(mm[0][0])))
+            return
+
+
+def cl_unfold(v, svs):
+    """the value an environment description stands for (tokens replaced by the shared values)"""
+    if v["k"] == "S":
+        return cl_unfold(svs[v["i"] - 1], svs)
+    if v["k"] == "D":
+        return {"k": "D", "m": dict((k, cl_unfold(x, svs)) for k, x in cl.items(v))}
+    return v
+
+
 # ---------------------------------------------------------------- C2S: seeded random calls
 def leaf_pool():
     pool = []
@@ -269,25 +375,47 @@ def random_trace(ctx, fails, fns, n):
         elif x < 0.7:
             op, args = "recon", [a, b]
         elif x < 0.75:
-            # the string form; the record carries the dictionary the string (and value) stand for
+            # the string form; the record carries the dictionary the string (and value) stand for.
+            # A history: the string is used on one dictionary, that dictionary is updated further below the
+            # first key, then the same string is used on another dictionary - every call must do what it
+            # does the first time.
             parts = [rnd.choice(keys) for _k in range(rnd.randint(1, 3))]
+            novalue = len(parts) >= 2 and rnd.random() < 0.4
             value = rnd.choice(leaves)() if rnd.random() < 0.6 else cl.random_dict(rnd, keys, 2, leaves)
             if isinstance(value, str):
                 value = 3
-            other = value
-            for k in reversed(parts):
+            if novalue:
+                other, path = parts[-1], parts[:-1]
+            else:
+                other, path = value, parts
+            for k in reversed(path):
                 other = {k: other}
-            snap = copy.deepcopy(a)
-            enc = cl.Encoder()
-            before = [enc.enc(snap), enc.enc(copy.deepcopy(other))]
-            try:
-                fns.update_recursively(a, ".".join(parts), copy.deepcopy(value))
-            except Exception as exc:     # noqa
-                fails.add("update_recursively(string):raised:%s" % exc_name(exc), 10 ** 6,
-                          {"d": snap, "other": ".".join(parts), "value": repr(value)})
-                continue
-            trace.append({"op": "updrec", "lv": -1, "key": "-", "args": before, "res": enc.enc({}),
-                          "post": [enc.enc(a), before[1]]})
+            targets = [a]
+            if rnd.random() < 0.6:
+                targets += [{parts[0]: cl.random_dict(rnd, keys, 2, leaves)}, b]     # [d, further update of d, d2]
+            for n, tgt in enumerate(targets):
+                if n == 1:
+                    # an ordinary update of the first dictionary with a dictionary made on the spot
+                    try:
+                        trace.append(record(fns, "updrec", [a, tgt], -1, "-"))
+                    except Exception as exc:     # noqa
+                        fails.add("update_recursively:raised:%s" % exc_name(exc), 10 ** 6, {"d": a, "other": tgt})
+                        break
+                    continue
+                snap = copy.deepcopy(tgt)
+                enc = cl.Encoder()
+                before = [enc.enc(snap), enc.enc(copy.deepcopy(other))]
+                try:
+                    if novalue:
+                        fns.update_recursively(tgt, ".".join(parts))
+                    else:
+                        fns.update_recursively(tgt, ".".join(parts), copy.deepcopy(value))
+                except Exception as exc:     # noqa
+                    fails.add("update_recursively(string):raised:%s" % exc_name(exc), 10 ** 6,
+                              {"d": snap, "other": ".".join(parts), "value": "-" if novalue else repr(value)})
+                    break
+                trace.append({"op": "updrec", "lv": -1, "key": "-", "args": before, "res": enc.enc({}),
+                              "post": [enc.enc(tgt), before[1]]})
             continue
         elif x < 0.85:
             op, args, lv = "updrec", [a, b], -1
@@ -302,6 +430,12 @@ def random_trace(ctx, fails, fns, n):
                     cur = cur[key]
             if not chain_ok(args[1], key):
                 continue        # inserting into a scalar is outside the documented domain
+        if op in ("inter", "diff", "recon") and rnd.random() < 0.3:
+            # one sub-dictionary object in two places of the arguments: the values (and so the record) say nothing
+            # about it, and the result may not depend on it
+            cl.alias_somewhere(rnd, args)
+            if op == "recon" and args[0] is args[1]:
+                args[1] = copy.deepcopy(args[1])
         snap = copy.deepcopy(args)
         try:
             trace.append(record(fns, op, args, lv, key))
@@ -367,6 +501,14 @@ def run(ctx):
         f_mc = jobs.submit(ctx.mc, "CtxAlgebra", "CtxAlgebra_%s.cfg" % tag, coverage=True, must_cover=ACTIONS)
         f_laws = jobs.submit(ctx.mc, "CtxAlgebra", "CtxAlgebra_%s_laws.cfg" % tag)
         f_exp = jobs.submit(ctx.export, "CtxAlgebra", "CtxAlgebra_%s_export.cfg" % tag, min_records=1000)
+        # ---- object level: sharing inside / between the arguments, histories of calls (CtxHeap)
+        f_heap = jobs.submit(ctx.mc, "CtxHeap", "CtxHeap_%s.cfg" % tag, coverage=True, must_cover=HEAP_ACTIONS)
+        f_hexp = [jobs.submit(ctx.export, "CtxHeap", "CtxHeap_%s_export_%s.cfg" % (tag, part), min_records=300)
+                  for part in ("sharing", "history")]
+        # the explored universe must be able to tell wrong object-level algorithms from the right one
+        guards = [("CtxHeap_guard_inplace.cfg", "the sharing universe does not refute narrowing the deep copy in place"),
+                  ("CtxHeap_guard_strcache.cfg", "the histories do not refute a str_to_dict that hands out a kept dictionary")]
+        f_guards = [jobs.submit(ctx.mc, "CtxHeap", g, workers=2, expect_violation="report") for g, _ in guards]
         # ---- the repository's own tests as a trace source (Split static context, Zip, group_plots ...)
         f_repo = jobs.submit(repo_job)
         # ---- code -> spec: seeded random calls
@@ -389,6 +531,8 @@ def run(ctx):
                 # all depth-2 pairs; depth 3 (nesting below one key); three keys; triples of depth-2 dictionaries
                 for extra in ("full", "deep", "wide", "triples"):
                     ctx.mc("CtxAlgebra", "CtxAlgebra_thorough_%s.cfg" % extra)
+                f_heap.result()
+                ctx.mc("CtxHeap", "CtxHeap_thorough_any.cfg")        # any three updates of two dictionaries
             f_more = jobs.submit(more)
         for fut, nv in exports:
             recs = fut.result()
@@ -402,8 +546,27 @@ def run(ctx):
                 ctx.case([rec["op"], rec["lv"], rec["key"], rec["args"]],
                          nontrivial=any(cl.items(a) for a in rec["args"]))
             del recs
+        # ---- spec -> code, object level: every program of the CtxHeap universes
+        nprog = 0
+        for fut in f_hexp:
+            recs = fut.result()
+            ctx.sample({"spec_behaviour_objects": recs[len(recs) // 2]})
+            for rec in recs:
+                syms = cl.graph_symbols([rec["env"], rec["prog"]])
+                for val in cl.valuations(syms, rnd, nval):
+                    replay_program(fails, rec, val, rnd, fns)
+                    ncalls += len(rec["prog"])
+                nprog += 1
+                ctx.case(["objects", rec["env"], rec["prog"]])
+            del recs
+        ctx.extra["object_level_programs_s2c"] = nprog
         ctx.extra["implementation_calls_s2c"] = ncalls
         fails.report(ctx)
+        f_heap.result()
+        for (g, msg), f in zip(guards, f_guards):
+            if f.result().violated != "StepsOK":
+                raise core.MachineryError(msg)
+        ctx.extra["object_level_guards"] = "in-place narrowing and cached str_to_dict refuted by TLC (StepsOK)"
         f_mc.result()
         f_laws.result()
         cl.account_trace(ctx, tmod, trace, f_trace.result(),
